@@ -21,6 +21,28 @@ fn next_key(rng: &mut Rng, k: usize, prev: &[u8; 32]) -> [u8; 32] {
 fn spec(files: &[u8], salt: &[u8; 16], key: &[u8; 32]) -> [u8; 20] { sha(&[key, &hmac_sha1(salt, files)]) }
 
 pub fn run(ctx: &mut Ctx) {
+    // a buffer patched in place between two calls (same address, same length, same salt, same key): the second
+    // result must be the hash of the NEW contents - for the one-buffer function and, with the same bytes cut into
+    // five pieces, for the Windows and Mac functions
+    {
+        let mut r3 = ctx.rng("in_place");
+        for k in 0..(if ctx.quick() { 300 } else { 6000 }) {
+            let len = 1 + r3.range(0, 300) as usize;
+            let mut buf = r3.bytes(len);
+            let salt: [u8; 16] = r3.arr(); let key: [u8; 32] = r3.arr();
+            let reference = |b: &[u8]| sha(&[&key, &hmac_sha1(&salt, b)]);
+            ctx.oracle_runs += 1;
+            let first = catch(|| login_integrity_check_generic(&buf, &salt, &key));
+            let at = r3.below(len as u64) as usize; buf[at] ^= 1 << r3.below(8);
+            let second = catch(|| login_integrity_check_generic(&buf, &salt, &key));
+            let cuts = { let mut c: Vec<usize> = (0..4).map(|_| r3.below(len as u64 + 1) as usize).collect(); c.sort(); c };
+            let win = catch(|| login_integrity_check_windows(&buf[..cuts[0]], &buf[cuts[0]..cuts[1]], &buf[cuts[1]..cuts[2]], &buf[cuts[2]..cuts[3]], &buf[cuts[3]..], &salt, &key));
+            let want2 = reference(&buf);
+            if second != Some(want2) || win != Some(want2) || first == second {
+                ctx.fail("in_place_change", format!("{{\"what\":\"after a byte of the buffer was changed in place the result is not the hash of the new contents\",\"history\":\"generic(buf), flip one bit of buf[{}], generic(buf), windows(buf cut in five)\",\"len\":{},\"salt\":\"{}\",\"key\":\"{}\",\"buf_after\":\"{}\",\"call\":{}}}", at, len, hex(&salt), hex(&key), hex(&buf), k));
+            }
+        }
+    }
     // the module's own generators (also judged by C15): with the random source replaced by a known tape they hand
     // out exactly its next bytes - the value this property's functions are then fed with
     {
